@@ -544,7 +544,7 @@ int main (int argc, char **argv)
 				continue;
 			}
 			forked = 1;
-			alarm (60);
+			alarm (getenv ("QSX_ALARM") ? atoi (getenv ("QSX_ALARM")) : 60);
 			c = tok ();
 		}
 		if (!strcmp (c, "inf")) cmd_inf ();
